@@ -11,7 +11,8 @@ RULE = ("Mode G: every validated model of the families x EVERY partial / interva
         "all leaves) x every completion (through a per-node reference truth table over all total assignments). oracle: every returned "
         "bound contains the node's reference value under every completion; on every node of the original and of every assumed model "
         "is_tautology / is_contradiction are sound and equation_bounds is the exact (min,max) of sign*sum-value over the direct children "
-        "box (brute force). non-trivial = distinct (model, interpretation) whose top result is a proper interval or a decided constant "
+        "box (brute force). Interpretations may also name ONE sub-proposition id (0 / 1 as int, tuple or Bounds: override; (0,1): open), combined "
+        "with every fifth leaf interpretation, on abc, at, diamonds. non-trivial = distinct (model, interpretation) whose top result is a proper interval or a decided constant "
         "with at least one unspecified leaf")
 ASSUMPTIONS = [
     "filter errors()==[]",
@@ -23,6 +24,9 @@ BOUNDS = {
 }
 QUICK = ["abc/explicit", "at/explicit", "diamond/explicit", "fixed/ab", "mix3/abt/explicit", "empty/ab", "au/explicit"]
 THOROUGH = QUICK + ["abt/explicit", "abc/generated", "au/explicit", "d3/abc/explicit", "diamond/generated", "abct/explicit", "tn/explicit"]
+
+
+COMPOUND_FAMS = ("abc/explicit", "at/explicit", "diamond/explicit", "abc/generated", "d3/abc/explicit")
 
 
 def shards(tier):
@@ -38,6 +42,8 @@ def run_shard(desc, acc, tier):
     fam, lo, hi = desc
     for k, m in enumerate(families.family(fam)[lo:hi], start=lo):
         check_model(m, acc, fam, k)
+        if fam in COMPOUND_FAMS:
+            check_compound_entries(m, acc, fam, k)
 
 
 WIDE_OPTS = [None, (0, 30000), (-30000, 30000), "lo..0", "1..hi", "lo", "hi", (0, 0), (-1, 1)]
@@ -273,8 +279,80 @@ def check_model(m, acc, fam, k, only_interp=None):
                         "completions": int(mask.sum())})
 
 
+def check_compound_entries(m, acc, fam, k, only=None):
+    """Interpretations that ALSO name one sub-proposition id (the top included): a constant 0 / 1 given as int, tuple or Bounds overrides
+    the node; the range (0,1) leaves it open. Combined with every fifth leaf interpretation (a fixed residue class per compound/option).
+    oracle: the returned bounds of every node contain its value under every completion of the leaves - with the named node at the given
+    constant (reference truth with override), resp. computed from its definition for (0,1)."""
+    case0 = {"fam": fam, "k": k, "ast": m, "mode": "compound"}
+    obj, b = bind(m)
+    if obj.errors():
+        return
+    leaves = leaves_of(m)
+    lids = list(leaves)
+    comps = compounds_of(m)
+    idof = {c: b.memo[c].id for c in comps}
+    alphas = list(ref.assignments(leaves))
+    L_ = np.array([[a[i] for i in lids] for a in alphas], dtype=np.int64)
+    opts = [leaf_options(*leaves[i]) for i in lids]
+    choices = list(itertools.product(*opts))
+    for ci, c in enumerate(comps):
+        for oi, rng in enumerate([(0, 0), (1, 1), (0, 1)]):
+            if only is not None and (ci, oi) != tuple(only[:2]):
+                continue
+            ovr = {c: rng[0]} if rng[0] == rng[1] else None
+            node_ids, rows = None, []
+            for a in alphas:
+                table = {}
+                ref.truth(m, a, ovr, table)
+                if node_ids is None:
+                    node_ids = [(n_[1] if n_[0] == 'L' else idof[n_]) for n_ in table]
+                rows.append(list(table.values()))
+            V = np.array(rows, dtype=np.int64)
+            for ii in range((ci + oi + k) % 5, len(choices), 5):
+                if only is not None and ii != only[2]:
+                    continue
+                choice = choices[ii]
+                interp = {idof[c]: as_value(rng, (ii + ci + k) % 3)}
+                mask = np.ones(len(alphas), dtype=bool)
+                for j, (i, r_) in enumerate(zip(lids, choice)):
+                    if r_ is None:
+                        continue
+                    interp[i] = as_value(r_, (ii + j + k) % 3)
+                    mask &= (L_[:, j] >= r_[0]) & (L_[:, j] <= r_[1])
+                case = dict(case0, comp=[ci, oi, ii])
+                o2, _ = bind(m)              # fresh receiver: naming a sub-proposition id assigns its variable (C09 finding D3)
+                acc.n("traces")
+                acc.n("transitions")
+                try:
+                    res = o2.evaluate_propositions(dict(interp))
+                except BaseException as e:
+                    acc.violation(None, case, {"what": "evaluate_propositions raised", "exc": repr(e), "model": show(m), "interpretation": repr(interp)})
+                    continue
+                acc.obs(sorted((str(k_), v.as_tuple()) for k_, v in res.items()))
+                sub = V[mask]
+                mn, mx = sub.min(axis=0), sub.max(axis=0)
+                for j, nid in enumerate(node_ids):
+                    got = res.get(nid)
+                    if got is None:
+                        continue      # nodes cut off below an overridden node need not be reported
+                    lo, hi = got.as_tuple()
+                    if lo > mn[j] or hi < mx[j]:
+                        acc.violation(None, case, {"what": "interpretation naming a sub-proposition: returned bounds do not contain the node's value under every completion",
+                                                   "model": show(m), "interpretation": repr(interp), "node": str(nid), "returned": (int(lo), int(hi)),
+                                                   "reference_range_over_completions": (int(mn[j]), int(mx[j]))})
+                        break
+                else:
+                    acc.hist("compound_entry", f"{rng}")
+                    if mn[node_ids.index(idof[m])] != mx[node_ids.index(idof[m])]:
+                        acc.nontriv((m, "comp", ci, oi, ii))
+
+
 def replay(case, acc):
     from ..runner import tuplify
+    if case.get("mode") == "compound":
+        check_compound_entries(tuplify(case["ast"]), acc, case["fam"], case["k"], only=case["comp"])
+        return
     if case.get("wide"):
         check_wide(tuplify(case["ast"]), acc, case["fam"], case["k"], only=case.get("interp_index"))
         return
